@@ -650,8 +650,8 @@ func TestVerif_C28(t *testing.T) {
 		env := c28NewEnv()
 		P := env.progs
 		n := len(P)
-		seqLen := 3
-		space := mc.Pick(r, "all ordered pairs in P^2 and all triples (p,q,r) with p,q in D (the programs that leave residue in a pool or cache) and r in P", "all ordered triples in P^3")
+		seqLen := mc.Pick(r, 3, 4)
+		space := mc.Pick(r, "all ordered pairs in P^2 and all triples (p,q,r) with p,q in D (the programs that leave residue in a pool or cache) and r in P", "all ordered triples in P^3 and all quadruples (p,q,s,r) with p,q,s in D, r in P")
 		r.Rule(fmt.Sprintf("program set P (%d programs: dirty stacks, dirty / never-written memory, recursion, jump tables incl. DELEGATECALL/CALLCODE/"+
 			"CREATE, cacheable precompiles with equal, zero-extended and truncated inputs); (a) every ordered sequence in P^%d run back to back on one EVM "+
 			"(shared stack arena + jumpdest cache), the process-wide memory pool and one process-wide precompile cache, each run on a fresh copy of the "+
@@ -660,6 +660,13 @@ func TestVerif_C28(t *testing.T) {
 			"post-state root, logs, refund == depth-0 baseline; (c) results known by construction (fresh memory reads zero, stdlib hashes) are compared "+
 			"in every context; distinct = distinct (sequence) / (d,r,k)", n, space))
 		r.Bound("programs", n)
+		known := 0
+		for _, p := range P {
+			if p.want != nil {
+				known++
+			}
+		}
+		r.Bound("programs_with_result_known_by_construction", known)
 		r.Bound("sequence_length", seqLen)
 		r.Bound("max_wrapper_depth", 3)
 		r.Assume("rule set: params.MergedTestChainConfig (Osaka) at block 1; every run of a program uses the same pre-warmed access list (the program, the programs it calls, the wrappers) so that warm/cold pricing does not depend on the call path")
@@ -796,6 +803,7 @@ func TestVerif_C28(t *testing.T) {
 			runSeqs([][]int{dirt, dirt, all})
 		} else {
 			runSeqs([][]int{all, all, all})
+			runSeqs([][]int{dirt, dirt, dirt, all})
 		}
 		r.OutcomeN("run_started_on_dirty_arena", dirtyArena)
 		r.OutcomeN("run_started_on_clean_arena", cleanArena)
